@@ -229,6 +229,7 @@ func (c *goCallable) Call(argv []reflect.Value) (reflect.Value, error) {
 		return undefined, err
 	}
 
+	simYield("gocall.invoke", c)
 	results := c.fn.Call(argv)
 
 	if len(results) == 2 && !results[1].IsNil() {
@@ -246,6 +247,7 @@ func (c *goCallable) validateArgCount(argv []reflect.Value) ([]reflect.Value, er
 
 	argc := len(argv)
 
+	simYield("gocall.ctxread", c)
 	if c.contextHandler != nil && c.contextHandler(argv) {
 		// TODO: Return an error if the evaluation context
 		// is not the correct type.
@@ -689,6 +691,7 @@ func (f *transformationCallable) Call(argv []reflect.Value) (reflect.Value, erro
 		return undefined, nil
 	}
 
+	simYield("transform.cloned", f)
 	items, err := eval(f.pattern, obj, f.env)
 	if err != nil {
 		return undefined, err
@@ -698,6 +701,7 @@ func (f *transformationCallable) Call(argv []reflect.Value) (reflect.Value, erro
 
 	for i := 0; i < items.Len(); i++ {
 
+		simYield("transform.item", f)
 		item := jtypes.Resolve(items.Index(i))
 		if !jtypes.IsMap(item) {
 			continue
